@@ -195,7 +195,7 @@ class Writer(object):
 
     def qualified(self, text, t):
         """name  ->  (as name Sort) now and then: a qualified identifier denotes what the name denotes."""
-        if self.qualify and self.pct(6):
+        if self.qualify and not text.startswith("(") and self.pct(6):
             try:
                 ty = self.ty(t)
             except Exception:
